@@ -607,12 +607,43 @@ class Facts:
         return r
 
     def find1(self, *frags, kind=None, name=None):
-        """Exactly one non-closure function whose path contains all fragments, else AnchorError."""
+        """Exactly one non-closure function whose path contains all fragments, else AnchorError.
+
+        An anchor names a function of the pinned tree.  When the name no longer resolves (the function was renamed or
+        moved to another module), the recorded *shape* of the anchor - parameter and return types and the functions it
+        calls - is looked for among the functions of the same crate; a unique close match is taken instead, so that a
+        rename or a move is not reported as a broken check."""
         r = [f for f in self.find(*frags, kind=kind, name=name) if f.kind != "Closure" and "{closure" not in f.path]
-        if len(r) != 1:
-            raise AnchorError("anchor %s resolves to %d functions: %s" % (
-                "+".join(frags), len(r), [f.path for f in r][:6]))
-        return r[0]
+        key = "+".join(frags) + "|" + (name or "") + "|" + (kind or "")
+        if len(r) == 1:
+            _anchor_record(key, r[0])
+            return r[0]
+        if len(r) == 0:
+            alt = self._anchor_by_shape(key)
+            if alt is not None:
+                return alt
+        raise AnchorError("anchor %s resolves to %d functions: %s" % (
+            "+".join(frags) + ("::" + name if name else ""), len(r), [f.path for f in r][:6]))
+
+    def _anchor_by_shape(self, key):
+        shape = _anchor_table().get(key)
+        if not shape:
+            return None
+        best, second = None, 0.0
+        for f in self.fns.values():
+            if f.crate != shape["crate"] or not f.body or f.kind == "Closure" or "{closure" in f.path:
+                continue
+            if _signature(f) != shape["sig"]:
+                continue
+            sim = _jaccard(_callee_bag(f), shape["callees"])
+            if best is None or sim > best[0]:
+                second = best[0] if best else 0.0
+                best = (sim, f)
+            elif sim > second:
+                second = sim
+        if best and best[0] >= 0.7 and best[0] - second >= 0.15:
+            return best[1]
+        return None
 
     def tracked_body(self, *frags, name):
         """User body of a `#[salsa::tracked] fn name`: salsa moves it into
@@ -649,6 +680,62 @@ class Facts:
 
     def adt_impls(self, adt_path):
         return [i for i in self.impls if i.get("self_adt") == adt_path]
+
+
+_ANCHORS = None
+_ANCHOR_NEW = {}
+ANCHOR_TABLE = os.path.join(os.path.dirname(os.path.abspath(__file__)), "..", "tables", "anchors.json")
+
+
+def _anchor_table():
+    global _ANCHORS
+    if _ANCHORS is None:
+        try:
+            with open(ANCHOR_TABLE) as fh:
+                _ANCHORS = json.load(fh)
+        except (OSError, ValueError):
+            _ANCHORS = {}
+    return _ANCHORS
+
+
+def _signature(f):
+    return [strip_lifetimes(f.local_ty(i) or "") for i in range(0, f.argc + 1)]
+
+
+def strip_lifetimes(t):
+    import re
+    return re.sub(r"'\w+\s?", "", t)
+
+
+def _callee_bag(f):
+    bag = {}
+    for c in f.calls():
+        n = last_seg(c.path)
+        if n:
+            bag[n] = bag.get(n, 0) + 1
+    return bag
+
+
+def _jaccard(a, b):
+    keys = set(a) | set(b)
+    if not keys:
+        return 1.0
+    inter = sum(min(a.get(k, 0), b.get(k, 0)) for k in keys)
+    union = sum(max(a.get(k, 0), b.get(k, 0)) for k in keys)
+    return inter / union if union else 1.0
+
+
+def _anchor_record(key, f):
+    """With VERIF_WRITE_ANCHORS=1 the shapes of all resolved anchors are (re)written to tables/anchors.json."""
+    if not os.environ.get("VERIF_WRITE_ANCHORS"):
+        return
+    _ANCHOR_NEW[key] = {"crate": f.crate, "path": f.path, "sig": _signature(f), "callees": _callee_bag(f)}
+    tab = dict(_anchor_table())
+    tab.update(_ANCHOR_NEW)
+    with open(ANCHOR_TABLE, "w") as fh:
+        json.dump(tab, fh, indent=0, sort_keys=True)
+    global _ANCHORS
+    _ANCHORS = tab
 
 
 class AnchorError(Exception):
